@@ -4,8 +4,8 @@ set -u
 patch="$1"; id="$2"; tier="${3:-quick}"
 cd /repo || exit 2
 if ! git diff --quiet; then echo "REPO DIRTY"; exit 2; fi
-if ! git apply "$patch" 2>/tmp/apply.err && ! git apply --3way "$patch" 2>>/tmp/apply.err; then echo "PATCH DOES NOT APPLY"; cat /tmp/apply.err | head -5; git checkout -- . ; exit 3; fi
+if ! git apply "$patch" 2>/tmp/apply.err && ! git apply --3way "$patch" 2>>/tmp/apply.err; then echo "PATCH DOES NOT APPLY"; cat /tmp/apply.err | head -5; git reset -q --hard HEAD; exit 3; fi
 cd /verif && ./check "$id" "$tier" > /tmp/mut.out 2>&1; code=$?
 grep -E 'VIOLATION|sig:|KNOWN|MACHINERY|quick:|thorough:' /tmp/mut.out | head -12
 echo "exit=$code"
-git -C /repo reset -q; git -C /repo checkout -- . ; git -C /repo status --short | head -3
+git -C /repo reset -q --hard HEAD; git -C /repo status --short | head -3
